@@ -284,6 +284,12 @@ func txTampers(idx int) []tamper {
 				if t.Version.Is(1) {
 					t.Version = new(core.TransactionVersion).SetUint64(0)
 					t.EntryPointSelector = chain.F(1)
+					if t.ContractAddress == nil { // keep the tampered transaction well-formed for its new version
+						t.ContractAddress = t.SenderAddress
+					}
+					if t.MaxFee == nil {
+						t.MaxFee = chain.F(0)
+					}
 					return true
 				}
 			case *core.DeclareTransaction:
@@ -1150,6 +1156,7 @@ func TestCheck(t *testing.T) {
 			r.Violate(fmt.Sprintf("memory-differs-from-disk-after-rejection %s level=%s %s", cls, j.level, label), map[string]any{"case": detail, "differing": diff})
 		}
 	})
+	runFixtures(t, r, tampers, distinct, &mu)
 	r.Set("distinct_nontrivial", int64(len(distinct)))
 	r.Set("catalogue_applicable", int64(len(applicable)))
 	var na []string
@@ -1164,7 +1171,7 @@ func TestCheck(t *testing.T) {
 	r.Sample(map[string]any{"version": versions[len(versions)-1], "position": 2, "tamper": "diff.migrated-casm", "level": "block-rehashed"})
 	r.Sample(map[string]any{"catalogue": len(tampers), "jobs": len(jobs)})
 	r.Assume = append(r.Assume, "catalogue of committed fields is hand-written from the protocol hash definitions (fields the protocol does not commit - events bloom, header signatures, L2 gas in receipts, VM resource counters, deploy v0 / declare v0 body fields - are deliberately absent)",
-		"valid blocks come from mc/chain (roots from the independent reftrie); real-network fixture blocks of older formats are covered by the repository's own hash tests, not here")
+		"synthetic valid blocks come from mc/chain (roots from the independent reftrie); older formats are covered by the feeder fixture chains sepolia 0..6 (0.12.3) and mainnet 0..2 (pre-0.7) with the catalogue restricted to what those formats commit")
 	r.Finish()
 }
 
